@@ -194,6 +194,17 @@ Theorem concurrent_instances_converge : forall cfg n sched d, (0 < n)%nat -> con
 Proof. exact conc_same_config. Qed.
 Print Assumptions concurrent_instances_converge.
 
+(* Whatever the instances did and wherever some of them stopped, one uninterrupted run afterwards (with any
+   configuration) completes the work. *)
+Theorem crashed_instances_then_completed : forall cfg n sched d cfg', (0 < n)%nat -> consistent d ->
+  let s := sched_run sched (init_sys d (repeat cfg n)) in
+  snd (run cfg' None (s_db s)) = true /\ converged cfg' (run_db cfg' None (s_db s)).
+Proof.
+  intros cfg n sched d cfg' Hn Hd s.
+  destruct (rotate_converges cfg' (s_db s) (proj1 (conc_same_config cfg n sched d Hn Hd))) as [A [B _]]. now split.
+Qed.
+Print Assumptions crashed_instances_then_completed.
+
 (* Every instance finishes: each of its statements lowers a measure that starts at 45, whatever the others do to the
    database in between. *)
 Theorem every_instance_finishes :
